@@ -3,8 +3,9 @@ C17 — Packing directives are honoured exactly in the on-disk layout.
 
 Property theorems only.  Part 1 is about the model of `sort_by_file.c` (`Sqfs/Model/Sort.lean`, and
 `Sqfs/Model/C17SortTree.lean` for the whole `fstree_t`), parts 2 and 3 about the functional specification `specPack`
-(`Sqfs/Spec/PackSpec.lean`, DESIGN.md Appendix B) — whether the queue/thread implementation computes `specPack` is the
-subject of C02, here it is tied to the real tools by the byte-level image comparison of `tools/checks/c17.py` only —
+(`Sqfs/Spec/PackSpec.lean`, DESIGN.md Appendix B) — that the queue/thread implementation model computes `specPack` is
+proved in C02 (`Sqfs.C02.run_eq_specPack`, `threaded_eq_specPack`; `Sqfs.C02.threaded_directives` carries Part 2 over), here
+`specPack` is tied to the real tools by the byte-level image comparison of `tools/checks/c17.py` —
 part 4 about the export table as `dir_writer.c` builds it (`Sqfs/Model/C17Export.lean`).  Every theorem quantifies
 over all file lists / sort lines / contents / block sizes / codecs / checksum functions; `fnmatch` is the parameter `mt`.
 -/
@@ -13,6 +14,7 @@ import Sqfs.Proofs.PackPos
 import Sqfs.Proofs.Export
 import Sqfs.Proofs.C17Export
 import Sqfs.Proofs.C17SortTree
+import Sqfs.Proofs.C17Mkfs
 namespace Sqfs.C17
 open Sqfs.Sort Sqfs.Pack
 
@@ -197,6 +199,104 @@ example :
     (fstreeSortFiles true (fun _ _ _ => false) [[45, 53, 32, 98]] R).toOption.map
         (fun s => (s.fs.inodes, s.fs.files, s.attrs.map (fun f => (f.path, f.priority))))
       = some ([[[98]], [[97]], []], [[[98]], [[97]]], [([98], -5), ([97], 0)]) := by decide
+
+/-! ### from the sort file's text to the flags `specPack` is given -/
+
+open Sqfs.C17Mkfs in
+/-- **`sort_then_pack_flags`.**  The whole way of a directive, for every sort file (as text), every file list with distinct
+paths, every `-T` setting, block size and file contents: if `fstree_sort_files` accepts the sort file, then
+`decodeLines` turned its text into lines `ls` (priority, flag word, glob kind, name — `decode_priority` / `decode_flags` /
+`decode_filename`), `fs->files` afterwards is the first-match marking of the default list sorted stably by priority
+(so `sort_perm` / `sort_sorted` / `sort_stable` speak about it), and `pack_files` (`Sqfs/Model/C17Mkfs.lean`) hands the
+files to the block processor **in exactly that order**, file `f` with its contents and with the flags
+`effectiveFlags (-T) B size (flags of the first line of the sort file that matches f's path)` — `Flags.ofNat 0`, i.e. no
+flag, when no line matches; never a later line's flags, never another file's.  The list on the right is what the
+`specPack` theorems of Part 2 (and, through `Sqfs.C02.run_eq_specPack` / `threaded_directives`, the block processor
+model) take as `files`. -/
+theorem sort_then_pack_flags (mt : Matcher) (rawLines : List (List UInt8)) (paths : List (List UInt8)) (hnd : paths.Nodup)
+    (noTail : Bool) (B : Nat) (content : List UInt8 → List UInt8) (inputs : List InFile)
+    (h : sortThenPack mt (some rawLines) paths noTail B content = .ok inputs) :
+    ∃ ls sorted, decodeLines true 0 rawLines = .ok ls ∧
+      sorted = sortFileList (paths.map (fun p => match ls.find? (fun l => lineMatches mt l p) with
+          | some l => ({ path := p, priority := l.priority, flags := l.dir.flags, matched := true } : FileEnt)
+          | none => { path := p })) ∧
+      (sorted.map (·.path)).Perm paths ∧
+      inputs = sorted.map (fun f => (⟨effectiveFlags noTail B (content f.path).length
+          (Flags.ofNat (match ls.find? (fun l => lineMatches mt l f.path) with | some l => l.dir.flags | none => 0)),
+          content f.path⟩ : InFile)) := by
+  unfold sortThenPack sortFiles at h
+  cases hd : decodeLines true 0 rawLines with
+  | error e => simp [hd] at h
+  | ok ls =>
+    simp only [hd, Except.ok.injEq] at h
+    rw [first_match_wins mt ls paths hnd] at h
+    refine ⟨ls, _, rfl, rfl, ?_, ?_⟩
+    · have hp := (sort_perm (paths.map (fun p => match ls.find? (fun l => lineMatches mt l p) with
+          | some l => ({ path := p, priority := l.priority, flags := l.dir.flags, matched := true } : FileEnt)
+          | none => { path := p }))).map (·.path)
+      refine hp.trans (List.Perm.of_eq ?_)
+      rw [List.map_map]
+      conv => rhs; rw [← List.map_id paths]
+      apply List.map_congr_left
+      intro p _
+      simp only [Function.comp]
+      split <;> rfl
+    · rw [← h, packFiles_eq_map]
+      apply List.map_congr_left
+      intro f hf
+      have hf' := (sort_perm _).mem_iff.mp hf
+      obtain ⟨p, _, rfl⟩ := List.mem_map.mp hf'
+      simp only [C17Mkfs.packFile, ofNat_packFileFlags]
+      cases hfd : ls.find? (fun l => lineMatches mt l p) with
+      | none => simp only [hfd]
+      | some l => simp only [hfd]
+
+open Sqfs.C17Mkfs in
+/-- no sort file: default order, no flag but what `-T` adds -/
+theorem no_sort_file_pack_flags (mt : Matcher) (paths : List (List UInt8)) (noTail : Bool) (B : Nat)
+    (content : List UInt8 → List UInt8) :
+    sortThenPack mt none paths noTail B content
+      = .ok (paths.map (fun p => (⟨effectiveFlags noTail B (content p).length {}, content p⟩ : InFile))) := by
+  simp only [sortThenPack, packFiles_eq_map, List.map_map]
+  congr 1
+  apply List.map_congr_left
+  intro p _
+  simp only [Function.comp, C17Mkfs.packFile, ofNat_packFileFlags, ofNat_zero]
+
+open Sqfs.C17Mkfs in
+/-- **text → flag word.**  An accepted flag list sets exactly the bits of the names it contains (each argument trimmed;
+`glob` / `glob_no_path` set none): `dont_compress`, `dont_fragment`, `dont_deduplicate`, `nosparse` reach `specPack`'s
+`Flags` as the fields of the same name, `DONT_HASH` is never set. -/
+theorem flag_list_decodes (args : List (List UInt8)) (d : Directives) (h : applyFlagNames {} args = .ok d) :
+    Flags.ofNat d.flags =
+      { dontCompress := (args.map trim).any (· == nmDontCompress)
+        dontHash := false
+        dontFragment := (args.map trim).any (· == nmDontFragment)
+        dontDedup := (args.map trim).any (· == nmDontDeduplicate)
+        ignoreSparse := (args.map trim).any (· == nmNosparse) } := by
+  rw [applyFlagNames_flags args {} d h]
+  simp only [Flags.ofNat, testBit_foldl, nameBit_compress, nameBit_hash, nameBit_fragment, nameBit_dedup, nameBit_sparse]
+  simp [testBit]
+
+/-- instance: the sort file `-5 [dont_compress] b⏎ 7 [glob,nosparse] *⏎` over `a`, `b`, `c` with `-T`, block size 4:
+`b` is packed first with `dont_compress` (its own line, not the later `*`), then `a` and `c` with `nosparse`; `c` is larger
+than a block and gets `dont_fragment` from `-T` -/
+example :
+    (Sqfs.C17Mkfs.sortThenPack exMatcher
+      (some [[45, 53, 32, 91, 100, 111, 110, 116, 95, 99, 111, 109, 112, 114, 101, 115, 115, 93, 32, 98],
+             [55, 32, 91, 103, 108, 111, 98, 44, 110, 111, 115, 112, 97, 114, 115, 101, 93, 32, 42]])
+      [[97], [98], [99]] true 4 (fun p => if p = [99] then [1, 2, 3, 4, 5] else p)).toOption.map
+        (fun l => l.map (fun f => (f.flags, f.data)))
+    = some [({ dontCompress := true }, [98]), ({ ignoreSparse := true }, [97]),
+            ({ ignoreSparse := true, dontFragment := true }, [1, 2, 3, 4, 5])] := by decide
+example := fun inputs h => sort_then_pack_flags exMatcher
+      [[45, 53, 32, 91, 100, 111, 110, 116, 95, 99, 111, 109, 112, 114, 101, 115, 115, 93, 32, 98],
+       [55, 32, 91, 103, 108, 111, 98, 44, 110, 111, 115, 112, 97, 114, 115, 101, 93, 32, 42]]
+      [[97], [98], [99]] (by decide) true 4 (fun p => if p = [99] then [1, 2, 3, 4, 5] else p) inputs h
+example := no_sort_file_pack_flags exMatcher [[97], [98], [99]] true 4 (fun p => if p = [99] then [1, 2, 3, 4, 5] else p)
+/-- instance: the flag list ` nosparse,glob` (blank before the name) -/
+example := flag_list_decodes [[32, 110, 111, 115, 112, 97, 114, 115, 101], [103, 108, 111, 98]]
+  { doGlob := true, pathGlob := true, flags := 16 } (by rfl)
 
 /-! ## Part 2 — `specPack`: each directive has exactly its layout effect -/
 
